@@ -26,6 +26,13 @@ for seed in sorted(mx):
         by = r.get("by") or "VIOLATION"
     else:
         by = "**not detected**"
+        mp = os.path.join(VERIF, "seeded", seed, "meta.json")
+        if os.path.exists(mp):
+            mm = json.load(open(mp))
+            if mm.get("caught_by_sibling"):
+                by = "**not detected by its own property's check**; caught by the check of " + ", ".join(mm["caught_by_sibling"])
+            if mm.get("open_note"):
+                by += " (" + mm["open_note"][:160] + ")"
     rows.append("| %s | %s | %s |" % (seed, notes, by))
 n_det = sum(1 for r in mx.values() if r.get("detected"))
 n_app = sum(1 for r in mx.values() if r.get("applies", True) and not r.get("obsolete"))
